@@ -121,6 +121,10 @@ fn main() {
         c_amf0::child_deep(args[2].parse().unwrap(), args[3].parse().unwrap());
         return;
     }
+    if args.len() == 6 && args[1] == "--child-flat" {
+        c_amf0::child_flat(&args[2], &args[3], args[4].parse().unwrap(), args[5].parse().unwrap());
+        return;
+    }
     // panics are observations, not noise
     panic::set_hook(Box::new(|_| {}));
     let stdin = io::stdin();
